@@ -55,6 +55,17 @@ theorem nextMsg_none (r : Receiver) (h : nextMsg r = none) : r.queue = [] := by
     · simp_all [Receiver.queue]
     · simp at h
 
+theorem returnFor_spec (limit : Nat) (r : Receiver) (f : Frame) (r' : Receiver) (bk : List Back)
+    (h : returnFor limit r f = (r', bk)) :
+    r'.used = r.used - f.cost ∧ r'.toReturn + backSum bk = r.toReturn + f.cost ∧ r'.portq = r.portq ∧
+    r'.unprocessed = r.unprocessed ∧ r'.receiving = r.receiving ∧ r'.finished = r.finished ∧
+    r'.closed = r.closed ∧ r'.dropped = r.dropped := by
+  unfold returnFor at h
+  split at h
+  · obtain ⟨rfl, rfl⟩ := Prod.mk.inj h
+    cases f <;> simp_all [Frame.isFinish, Frame.cost]
+  · exact returnCredits_spec _ _ _ _ _ h
+
 /-- Accounting of one `recv_any` iteration: exactly the head of the logical queue is consumed,
 its cost leaves `used` and is either kept in `toReturn` or sent back. -/
 theorem recvAnyStep_acct (c : Cfg) (r r' : Receiver) (bk : List Back) (f : Frame) (out : Option Out)
@@ -68,31 +79,12 @@ theorem recvAnyStep_acct (c : Cfg) (r r' : Receiver) (bk : List Back) (f : Frame
     · simp at h
     · rename_i f0 r0 hn
       have hq := nextMsg_spec r f0 r0 hn
-      cases f0 with
-      | finish =>
-        simp only [Option.some.injEq, Prod.mk.injEq] at h
-        obtain ⟨rfl, rfl, rfl, rfl⟩ := h
-        simp_all [Receiver.queue, Frame.cost]
-      | data p first last =>
-        simp only [] at h
-        generalize hrc : returnCredits c.limit r0 (Frame.data p first last).cost = rc at h
-        obtain ⟨r1, bk1⟩ := rc
-        have hs := returnCredits_spec _ _ _ _ _ hrc
-        simp only [] at h
-        (repeat' split at h) <;>
-          (simp only [Option.some.injEq, Prod.mk.injEq] at h
-           obtain ⟨rfl, rfl, rfl, rfl⟩ := h
-           simp_all [Receiver.queue])
-      | ports ids first last =>
-        simp only [] at h
-        generalize hrc : returnCredits c.limit r0 (Frame.ports ids first last).cost = rc at h
-        obtain ⟨r1, bk1⟩ := rc
-        have hs := returnCredits_spec _ _ _ _ _ hrc
-        simp only [] at h
-        (repeat' split at h) <;>
-          (simp only [Option.some.injEq, Prod.mk.injEq] at h
-           obtain ⟨rfl, rfl, rfl, rfl⟩ := h
-           simp_all [Receiver.queue])
+      generalize hrf : returnFor c.limit r0 f0 = rb at h
+      obtain ⟨r1, bk1⟩ := rb
+      have hs := returnFor_spec _ _ _ _ _ hrf
+      simp only [Option.some.injEq, Prod.mk.injEq] at h
+      obtain ⟨rfl, rfl, rfl, rfl⟩ := h
+      simp_all [Receiver.queue]
 
 def optCost : Option Frame → Nat
   | none => 0
@@ -116,32 +108,19 @@ theorem recvChunkStep_acct (c : Cfg) (r r' : Receiver) (bk : List Back) (f : Opt
     · simp only [Option.some.injEq, Prod.mk.injEq] at h
       obtain ⟨rfl, rfl, rfl, rfl⟩ := h
       simp [optCost, Receiver.queue]
-    · try simp only [] at h
-      split at h
+    · split at h
       · simp at h
       · rename_i f0 r0 hn
         have hq := nextMsg_spec r f0 r0 hn
-        cases f0 with
-        | finish =>
-          (repeat' split at h) <;>
-            (simp only [Option.some.injEq, Prod.mk.injEq, if_true, if_false, Bool.false_eq_true] at h
-             obtain ⟨rfl, rfl, rfl, rfl⟩ := h
-             simp_all [Receiver.queue, Frame.cost, optCost])
-        | data p first last =>
-          generalize hrc : returnCredits c.limit r0 (Frame.data p first last).cost = rc at h
-          obtain ⟨r1, bk1⟩ := rc
-          have hs := returnCredits_spec _ _ _ _ _ hrc
-          (repeat' split at h) <;>
-            (simp only [Option.some.injEq, Prod.mk.injEq, if_true, if_false, Bool.false_eq_true] at h
-             obtain ⟨rfl, rfl, rfl, rfl⟩ := h
-             simp_all [Receiver.queue, optCost])
-        | ports ids first last =>
-          generalize hrc : returnCredits c.limit r0 (Frame.ports ids first last).cost = rc at h
-          obtain ⟨r1, bk1⟩ := rc
-          have hs := returnCredits_spec _ _ _ _ _ hrc
-          (repeat' split at h) <;>
-            (simp only [Option.some.injEq, Prod.mk.injEq, if_true, if_false, Bool.false_eq_true] at h
-             obtain ⟨rfl, rfl, rfl, rfl⟩ := h
-             simp_all [Receiver.queue, optCost])
+        split at h
+        · simp only [Option.some.injEq, Prod.mk.injEq] at h
+          obtain ⟨rfl, rfl, rfl, rfl⟩ := h
+          simp_all [Receiver.queue, optCost]
+        · generalize hrf : returnFor c.limit r0 f0 = rb at h
+          obtain ⟨r1, bk1⟩ := rb
+          have hs := returnFor_spec _ _ _ _ _ hrf
+          simp only [Option.some.injEq, Prod.mk.injEq] at h
+          obtain ⟨rfl, rfl, rfl, rfl⟩ := h
+          simp_all [Receiver.queue, optCost]
 
 end Remoc.Link
